@@ -152,7 +152,8 @@ def finish(pid: str, tier: str, seed: int, mod: Any, res: dict, wall: float) -> 
                 'wall_s': round(lv.get('wall_s', 0.0), 1),
             }
         )
-        errors.extend(st.errors)
+        # a deep (thorough-only) level that ends inconclusive is simply not claimed; harness errors always count
+        errors.extend(e for e in st.errors if not (lv.get('deep') and e.startswith('inconclusive')))
         if not st.complete and lv.get('required', False):
             incomplete_required.append(lv['label'])
     cov = {
